@@ -7,20 +7,88 @@ TAGS = ['caught', 'tfin', 'sexit']
 RULE = ('(a) scope trees: nested (until-)scopes (depth <= 3, <= 3 children each, volatile or delayed), bodies and children that '
         'sleep/raise (regular and privileged types)/return, cancels from inside and from a separate activity after t time units '
         'and k postponements, deadlines and flags on a coarse time grid, everything wrapped in handlers that log what they catch; '
-        '(b) random valid whole-API programs (no usage errors); non-trivial = at least one task was cancelled/closed or a scope was interrupted')
+        '(b) random valid whole-API programs (no usage errors); (c) the program families of the lock, queue, channel, resource, condition and collect/first properties (several readers / contenders / consumers racing in one time step); non-trivial = at least one task was cancelled/closed or a scope was interrupted')
 
 
 def nontrivial(impl):
-    return any(':tfin:1' in e or ':tfin:2' in e or ':sexit:' in e for e in impl['events'])
+    return any(':tfin:1' in e or ':tfin:2' in e or ':sexit:' in e for e in impl['events']) or len(impl['events']) >= 12
 
 
-SOURCES = [scopesuite.scope_tree, scopesuite.valid_scenario]
+def _api_families():
+    # "every program that only makes valid API calls": the program families of the other native-API properties as well
+    # (not c14.family: it passes negative periods on purpose, a usage error; c16.family with its counts cut to what is valid)
+    import c08, c09, c10, c11, c12
+    def strip(x):
+        # (a `decrease` / `set` below what is lent out trips a usage assertion: not a valid program)
+        if isinstance(x, list):
+            return [strip(e) for e in x if not (isinstance(e, list) and e and e[0] == 'reschange')]
+        return x
+    def flows(rng):
+        # collect() / first() programs with valid counts (c16.family also asks for more results than there are activities)
+        import c16
+
+        def fix(x):
+            if isinstance(x, list):
+                if x and x[0] == 'first' and x[1] is not None:
+                    x = [x[0], min(x[1], len(x[3]) - 1)] + x[2:]
+                return [fix(e) for e in x]
+            return x
+        return fix(c16.family(rng))
+    return [c09.family, c10.family, c10.close_race, c10.handover_race, c11.family, c11.nested, lambda rng: strip(c12.family(rng)),
+            c08.cond_family, flows]
+
+
+_API = _api_families()
+_api_turn = [0]
+
+
+def api_program(rng):
+    _api_turn[0] += 1
+    return _API[_api_turn[0] % len(_API)](rng)
+
+
+SOURCES = [scopesuite.scope_tree, scopesuite.valid_scenario, api_program]
+
+
+def refine(msg, impl, model, sc):
+    """F14: `async for .. in first(..)` whose consumer is suspended in its loop body at the moment at which one of the
+    activities fails: the private interrupt of first()'s own scope is raised in the consumer's body"""
+    import re
+    evs = [e.split(':') for e in impl['events']]
+    hit = False
+    for i, e in enumerate(evs):
+        if e[3] != 'fbegin':
+            continue
+        a = [int(v) for v in e[4].split(',')]
+        n, base, me = a[0], a[3], e[2]
+        acts = {str(base + k) for k in range(n)}
+        # the consumer's own events from the call to the moment the iteration is torn down (`fabort`)
+        mine = []
+        for x in evs[i + 1:]:
+            if x[2] == me:
+                if x[3] in ('fabort', 'fend'):
+                    break
+                mine.append(x)
+        failed = any(f[2] in acts and f[3] == 'tfin' and f[4].startswith('3') for f in evs[i + 1:])
+        if failed and mine and any(x[3] == 'got' for x in mine) and \
+                mine[-1][3] in ('abegin', 'lreq', 'getreq', 'breq', 'csub', 'senter', 'spawn', 'putreq', 'cputreq'):
+            hit = True
+    codes = {int(v) for v in re.findall(r'-?\d+', msg.split(':')[-1])} if ':' in msg else set()
+    return {'first_consumer_suspended_when_activity_failed': hit,
+            'only_the_signal_and_the_assertion_it_trips': bool(codes) and codes <= {3, 9, 10},
+            'as_modelled': model is not None and model['events'] == impl['events'] and model['outcome'] == impl['outcome']}
+
+
+#: known finding F14: first() over three activities, the second fails at 2 while the consumer sleeps in its loop body
+F14_PROBE = ['scenario', ['debug', 1], ['start', 0], ['flags', 1], ['locks', 0],
+             ['roots', ['prog', ['first', 3, None, ['progs', ['prog', ['sleep', 1], ['ret', 11]], ['prog', ['sleep', 2], ['raise', 2]],
+                                                  ['prog', ['sleep', 3], ['log', 6], ['ret', 13]]], ['sleep', 5]], ['log', 2], ['sleep', 3]]]]
 
 
 def run(tier, seed, drv):
     return msuite.standard_run(PID, 'C03', TAGS, tier, seed, drv, SOURCES, nontrivial=nontrivial, rule=RULE,
-                               n_quick=200, n_thorough=6000)
+                               n_quick=200, n_thorough=6000, refine=refine, probes=[('F14', F14_PROBE)])
 
 
 def replay(data, drv):
-    return msuite.standard_replay(PID, 'C03', TAGS, data, drv)
+    return msuite.standard_replay(PID, 'C03', TAGS, data, drv, refine=refine)
